@@ -35,7 +35,9 @@ let handle = function
     (match c06_render (kind_n k) (List.map op_of ops) with Ok t -> hx t | Err _ -> "Err" | Panic _ -> "Panic" | OutOfFuel -> "OutOfFuel")
   | ["txt"; h] ->
     show_o (fun l -> String.concat "," (List.map hx l)) (c06_txt (txt ". 0 IN TXT x" @ bytes_of_hex h @ [n_of_int 10]))
-  | ["hinfo"; q; h] -> show_o hx (c06_hinfo (q = "q") (bytes_of_hex h))
+  | ["hinfo"; q; h] -> show_o hx (c06_hinfo (n_of_int 0) (q = "q") (bytes_of_hex h))
+  | ["txt1"; q; h] -> show_o hx (c06_hinfo (n_of_int 1) (q = "q") (bytes_of_hex h))
+  | ["nstext"; h] -> show_o (fun n -> hx (wire_of_labels n)) (c06_nstext (bytes_of_hex h))
   | "rec" :: k :: code :: cl :: ttl :: ow :: fs ->
     let fld (w : string) : fval =
       let a = String.sub w 1 (String.length w - 1) in
@@ -47,6 +49,12 @@ let handle = function
       | 'r' -> VRest (bytes_of_hex a)
       | 'x' -> (match b16_display (bytes_of_hex a) with Ok t -> VRest t | _ -> failwith "b16")
       | 'y' -> (match b64_display (bytes_of_hex a) with Ok t -> VRest t | _ -> failwith "b64")
+      | 't' -> VTypes (if a = "" then [] else List.map (fun x -> n_of_int (int_of_string x)) (String.split_on_char ',' a))
+      | 'm' -> VRtype (n_of_int (int_of_string a))
+      | 's' -> (match b16_display (bytes_of_hex a) with Ok t -> VSalt t | _ -> failwith "b16")
+      | 'z' -> (match b32_display (bytes_of_hex a) with Ok t -> VWord t | _ -> failwith "b32")
+      | 'o' -> VQuoted (bytes_of_hex a)
+      | 'i' -> VIp4 (bytes_of_hex a)
       | 'l' -> VCharstrs (if a = "" then [] else List.map bytes_of_hex (String.split_on_char ',' a))
       | _ -> failwith "bad field" in
     let vs = List.map fld fs in
